@@ -41,6 +41,7 @@ def run(ctx: Ctx) -> None:
     rule_order_compile(ctx)
     rule_determinism_map(ctx)
     rule_init_zero(ctx)
+    rule_reset_zero(ctx)
     gatesum.rule_derived_gates(ctx)
     rule_gate_table(ctx)
     ctx.floor("sibling.qindex", 40)
@@ -292,6 +293,71 @@ def rule_init_zero(ctx: Ctx) -> None:
             ctx.fail("init.zero", sm, init, f"{cn}(int) is not built as CliffordTableau(n)", construct=f"{cn}.__init__: int data")
 
 
+# ------------------------------------------------------------------------------------------------ reset.zero
+
+
+def rule_reset_zero(ctx: Ctx) -> None:
+    """'a reset leaves the measured qubit in |0>': both stabilizer wrappers ask reset_z for state 0 on their own qubit
+    argument and forward their determinism parameter; the dm Kraus pair is {|0><0|, |0><1|} (trace preserving, range |0>)."""
+    from .. import consteval
+    repo = ctx.repo
+    sm = repo.module(gatesum.SSTATE)
+    for cn in ("Stabilizer", "MixedStabilizer"):
+        fn = repo.anchor(sm.rel, f"{cn}.reset_qubit")
+        ctx.touch(sm, fn)
+        ps = func_params(fn)
+        cs = [c for c in calls_in(fn) if call_attr(c) == "reset_z"]
+        if len(cs) != 1:
+            raise AnalysisError(f"{cn}.reset_qubit: reset_z call not found")
+        c = cs[0]
+        tgt = repo.anchor("graphiq/backends/stabilizer/functions/clifford.py", "reset_z")
+        tps = func_params(tgt)
+        bound = {tps[i]: a for i, a in enumerate(c.args)}
+        bound.update({k.arg: k.value for k in c.keywords})
+        st = bound.get("intended_state")
+        ok = isinstance(st, ast.Constant) and st.value == 0 and norm(bound.get("qubit_position")) == ps[1] \
+            and norm(bound.get("measurement_determinism") or ast.Constant(None)) == ps[2]
+        if ok:
+            ctx.ok("reset.zero", sm, c, what=f"{cn}.reset_qubit -> reset_z(.., q, 0, determinism)")
+        else:
+            ctx.fail("reset.zero", sm, c,
+                     f"{cn}.reset_qubit calls `{short(c)}`; a reset must leave the qubit in |0>: intended_state 0, on the method's own "
+                     f"qubit argument, with the caller's determinism setting", func=f"{cn}.reset_qubit",
+                     construct=f"{cn}.reset_qubit: {short(c, 90)}")
+    dmf_rel = "graphiq/backends/density_matrix/functions.py"
+    dmm = repo.module(dmf_rel)
+    fn = repo.anchor(dmf_rel, "get_reset_qubit_kraus")
+    ctx.touch(dmm, fn)
+    mats = []
+    for n in fn.body:
+        if isinstance(n, ast.Assign) and isinstance(n.value, ast.Call) and call_attr(n.value) == "array":
+            try:
+                mats.append((norm(n.targets[0]), consteval.to_complex_matrix(consteval.fold(n.value))))
+            except consteval.NotConstant:
+                pass
+    if len(mats) != 2:
+        raise AnalysisError("get_reset_qubit_kraus: the two 2x2 Kraus literals were not found")
+    tot = [[0j, 0j], [0j, 0j]]
+    in_zero = True
+    for _, k in mats:
+        kk = cl.mm(cl.dag(k), k)
+        tot = [[tot[i][j] + kk[i][j] for j in range(2)] for i in range(2)]
+        in_zero = in_zero and abs(k[1][0]) < 1e-12 and abs(k[1][1]) < 1e-12
+    if cl.close(tot, cl.I2) and in_zero:
+        ctx.ok("reset.zero", dmm, fn, what="Kraus pair is trace preserving with range |0>")
+    else:
+        ctx.fail("reset.zero", dmm, fn,
+                 f"the reset Kraus operators {[n for n, _ in mats]} are not a trace-preserving pair mapping every state of the qubit to |0> "
+                 f"(sum K^dagger K = {tot})", func="get_reset_qubit_kraus", construct="get_reset_qubit_kraus: Kraus pair")
+    used = [c for c in calls_in(fn) if call_attr(c) == "get_one_qubit_gate"]
+    qp = func_params(fn)[1]
+    if len(used) == 2 and all(len(c.args) == 3 and norm(c.args[1]) == qp for c in used):
+        ctx.ok("reset.zero", dmm, used[0], what="both Kraus operators embedded at the reset qubit")
+    else:
+        ctx.fail("reset.zero", dmm, fn, "the two reset Kraus operators are not both embedded at the qubit being reset",
+                 func="get_reset_qubit_kraus", construct="get_reset_qubit_kraus: embedding position")
+
+
 # ------------------------------------------------------------------------------------------------ gate table (B5)
 
 
@@ -431,7 +497,22 @@ def rule_gate_table(ctx: Ctx) -> None:
 
 # ------------------------------------------------------------------------------------------------ knock-outs
 
+def _swap_first(a: str, b: str):
+    """swap the first occurrence of ``a`` with the first occurrence of ``b`` (re-orders two branch tests)"""
+    def f(src: str) -> str:
+        i, j = src.find(a), src.find(b)
+        if i < 0 or j < 0:
+            raise LookupError("knock-out anchor text missing")
+        (i, a1), (j, b1) = sorted([(i, a), (j, b)])
+        return src[:i] + b1 + src[i + len(a1):j] + a1 + src[j + len(b1):]
+    return f
+
+
 KNOCKOUTS = [
+    Knockout("A1-reintroduce-shadow", DM, _swap_first("elif isinstance(op, ops.MeasurementCNOTandReset):", "elif isinstance(op, ops.ClassicalControlledPairOperationBase):"),
+             "dispatch.shadow", "MeasurementCNOTandReset"),
+    Knockout("reset-to-one", gatesum.SSTATE, sub_nth("qubit_position, 0, measurement_determinism", "qubit_position, 1, measurement_determinism", 0), "reset.zero", "reset_qubit"),
+    Knockout("reset-kraus", "graphiq/backends/density_matrix/functions.py", sub_once("    kraus1 = np.array([[0, 1], [0, 0]])", "    kraus1 = np.array([[0, 0], [0, 1]])"), "reset.zero", "Kraus"),
     Knockout("A2-delete-CZ-branch", STAB,
              sub_once("        elif type(op) is ops.CZ:\n            state.apply_cz(\n                control=q_index(op.control, op.control_type),\n                target=q_index(op.target, op.target_type),\n            )\n", ""),
              "dispatch.cover", "CZ"),
